@@ -219,7 +219,7 @@ if "replay_jobs" in globals():
     def replay_jobs(prop, path, exes):
         return _rj(prop, path, exes) if prop in _OWNED else []
 
-XBT = [lns_streams("arith", 1, 1), areal_streams("assign", 1, 1)]
+XBT = [lns_streams("arith", 1500, 20000), areal_streams("assign", 60, 1500)]
 XBT_HARNESS = ["h_lns_u8", "h_lns_u16", "h_lns_u32", "h_areal_u8", "h_areal_u16", "h_areal_u32"]
 
 C20_HARNESS = {"h_lns_u16_san": dict(src="h_lns.cpp", flags=["-DUV_BT=16"] + SAN), "h_areal_u8_san": dict(src="h_areal.cpp", flags=["-DUV_BT=8"] + SAN)}
